@@ -51,6 +51,15 @@ class _Runner(_Processor):
         )
 
     @property
+    def max_tasks_exceeded(self) -> bool:
+        return (
+            self.max_tasks
+            - self._tasks_processed
+            - (self._tasks_concurrency_limit - self._limiter._value)
+            < 0
+        )
+
+    @property
     def cancel_event_task(self) -> asyncio.Task:
         if not hasattr(self, "_cancel_event_task"):
             self._cancel_event_task = asyncio.create_task(self.cancel_event.wait())
@@ -100,9 +109,18 @@ class _Runner(_Processor):
                 await consumer.unpause()
             else:
                 await self._limiter.acquire()
+            if self.max_tasks_exceeded:
+                # the limit was reached by another queue's consumer in the meantime
+                self._limiter.release()
+                await self._conn.message_broker.reject(key)
+                break
             t = asyncio.create_task(self._process_with_event(actor, key, payload, params))
             self._tasks.add(t)
             t.add_done_callback(self._task_callback)
+            if self.max_tasks_hit:
+                # enough messages were started, don't take any more from the queue
+                self.stop_consume_event.set()
+                break
 
     async def run_one_queue(
         self,
